@@ -54,6 +54,13 @@ CLAIMS = {
          "the eigen-solver; the winding correction between two faces sharing an edge. All meshes, positions and slot patterns symbolic."),
    design='6 C12', technique='contract-based deductive verification: loop contracts with ghost partial-sum functions, cuts and generalisation lemmas, SMT + exact polynomial back end',
    note=NOTE_COMMON + " Enclosed-volume meaning and rigid-motion invariance of volume/centroid rest on the quoted closed-surface lemma; flood fill and eigen-solver are named unverified."),
+ 'C14': dict(
+   text=("Translation independence as a corollary of contracts: the kernels through which absolute coordinates enter (closest-point kernel with a "
+         "relational translation clause on the real code, face cache, pressure and tension forces, area, signed-volume sum, padded face boxes "
+         "and box test, integration step) are re-verified against their specification functions on the current tree, and each specification "
+         "function is proved invariant or equivariant under a joint translation (lemmas); enclosed volume via the quoted closed-surface lemma."),
+   design='6 C14', technique='contract-based deductive verification: relational clause on the kernel + invariance lemmas over the specification functions of the contracts, SMT',
+   note=NOTE_COMMON + " Phases not under contract (surface reconstruction, division geometry, bending, other contact models) are named unverified."),
  'C18': dict(
    text=("Contracts on the real parameter reader over a facade of tinyxml2 and the string conversions: for the three reading functions, on normal "
          "return every documented tag is present and the field named after it (table written from the documentation) holds the converted "
